@@ -53,7 +53,12 @@ class Scene:
         out.append('TX')
         for mv in self.moves:
             for (s, dx, dy) in mv:
-                out.append('MOVE %d %d %d' % (s, dx, dy))
+                if s == -1:      # (-1, mode, 0): the client applies the junctions' recommended positions (mode 0 all, 1 only changed ones)
+                    out.append('APPLYREC %d' % dx)
+                elif s == -2:    # (-2, j, 0): late registration of the hyperedge at junction j for full rerouting
+                    out.append('REROUTE_J %d' % dx)
+                else:
+                    out.append('MOVE %d %d %d' % (s, dx, dy))
             out.append('TX')
         out.append('END')
         return '\n'.join(out) + '\n'
@@ -136,6 +141,32 @@ def gen_scene(rng, sid, lattice=60, nt=None, mode=None, opt=None, generic=True):
     return sc
 
 
+def gen_rec_scene(rng, sid, **kw):
+    """`apply recommended positions` histories: after routing / rerouting / improvement the client calls
+    Router::moveJunction(j, j->recommendedPosition()) for every live junction (no-op moves included, or only the changed ones), alone or
+    together with shape moves, then processTransaction(); repeated"""
+    sc = gen_scene(rng, sid, **kw)
+    shape_moves = [mv for mv in sc.moves]
+    extra = []
+    for k in range(rng.range(1, 3)):
+        rec = (-1, 0 if rng.chance(3, 4) else 1, 0)
+        kind = rng.below(4)
+        if kind == 0 or not shape_moves:
+            extra.append([rec])
+        elif kind == 1:
+            extra.append([rec] + shape_moves.pop(0))
+        elif kind == 2:
+            extra.append(shape_moves.pop(0) + [rec])
+        else:
+            extra.append(shape_moves.pop(0))
+            extra.append([rec])
+    sc.moves = extra + shape_moves[:1]
+    # (late registration - REROUTE_J in a later transaction, scene entry (-2, j, 0) - is supported by the scene language but not generated:
+    #  the terminal_on_tree_path classifier reads the tree the rerouter built from transaction 0 only)
+    sc.family = 'rec_' + sc.family
+    return sc
+
+
 def twin(sc):
     """same scene without improvement: its first transaction shows the tree *before* improvement (classifier input)"""
     t = copy.deepcopy(sc)
@@ -197,6 +228,9 @@ def parse_harness(txt):
             tx[w[0].lower()] = [int(v) for v in w[1:]]
         elif w[0] == 'ASSERT':
             cur['assert'] = line[7:]
+        elif w[0] == 'RECMOVE' and cur is not None:
+            # client move of a junction to its recommendedPosition(), queued for the transaction that follows: (id, no-op?, from, to)
+            cur.setdefault('recmoves', []).append((int(w[1]), w[2] == '1', (float(w[3]), float(w[4])), (float(w[5]), float(w[6])), len(cur['tx'])))
     return out
 
 
@@ -294,6 +328,57 @@ def junction_in_terminal_shape(sc, t):
             b = t['boxes'].get(s)
             if b is not None and inside_box(b, j['pos']):
                 return {'junction': jid, 'position': j['pos'], 'terminal': s, 'shape': b}
+    return None
+
+
+def recommended_onto_terminal(sc, o, k):
+    """classifier terminal_on_tree_path:improver_put_junction_on_terminal_shape, evaluated on transaction k's own output: a live junction's
+    position() lies inside or on the box of a terminal shape AND the client put it there by moveJunction(j, j->recommendedPosition()) in this
+    or an earlier transaction (the improver itself recommended a place on the terminal's border)"""
+    if k >= len(o['tx']):
+        return None
+    # the junction may since have been replaced (improvement deletes / adds junctions): the finding is the state the recommendation
+    # produced, so every transaction from the one that placed a junction on a terminal's shape onwards is covered
+    for jid, same, p, rp, txi in o.get('recmoves', []):
+        if txi > k or txi >= len(o['tx']):
+            continue
+        t = o['tx'][txi]
+        for s_ in sc.terminals():
+            b = t['boxes'].get(s_)
+            if b is not None and inside_box(b, rp) and not same:
+                return {'junction': jid, 'recommended_position': rp, 'terminal': s_, 'shape': b, 'moved_there_by_recommendation_in_tx': txi}
+    # ... or the improver created a new junction there (reported in its new-junction list; position() read from that transaction's output)
+    for txi in range(0, k + 1):
+        t = o['tx'][txi]
+        if not t['complete'] or (txi == 0 and sc.reroute):
+            continue        # (junctions created by the REROUTER at a terminal are the finding terminal_on_tree_path proper)
+        for jid in t['newj']:
+            j = t['juncs'].get(jid)
+            if j is None:
+                continue
+            for s_ in sc.terminals():
+                b = t['boxes'].get(s_)
+                if b is not None and inside_box(b, j['pos']):
+                    return {'junction': jid, 'position': j['pos'], 'terminal': s_, 'shape': b, 'created_there_by_improvement_in_tx': txi}
+    return None
+
+
+def shape_moved_over_junction(sc, o):
+    """first transaction in which a client MOVE put a terminal shape over a junction that was in free space before: the shape's box differs
+    from the previous transaction's, it contains (inside or on) the position() a live junction has in BOTH transactions, and the previous box
+    did not.  From there on the scene is outside the property's domain (junction placements in free space)."""
+    for k in range(1, len(o['tx'])):
+        t0, t1 = o['tx'][k - 1], o['tx'][k]
+        if not (t0['complete'] and t1['complete']):
+            continue
+        for s_ in sc.terminals():
+            b0, b1 = t0['boxes'].get(s_), t1['boxes'].get(s_)
+            if b0 is None or b1 is None or b0 == b1:
+                continue
+            for jid, j in t1['juncs'].items():
+                j0 = t0['juncs'].get(jid)
+                if j0 is not None and j0['live'] and j0['pos'] == j['pos'] and inside_box(b1, j['pos']) and not inside_box(b0, j['pos']):
+                    return k
     return None
 
 
@@ -401,24 +486,36 @@ def judge(sc, o, graphs, answers, pre, stats):
             fpa = FP_TLIST + ':assert'      # the improver meets a connector of the terminal-list rerouting whose end was never set
         bad.append((dict(base, what='COLA_ASSERT failed inside libavoid during a hyperedge scene', assertion=o['assert'],
                          last_op_log_records_before_the_assertion=tail), fpa))
+    for rm in o.get('recmoves', []):
+        stats['recommended_moves_noop' if rm[1] else 'recommended_moves_changed'] += 1
     T = sc.terminals()
     gi = 0
     tlist_reported = False
+    ood = shape_moved_over_junction(sc, o) if sc.family.startswith('rec_') else None     # (earlier families keep their full judgement)
+    o['out_of_domain_from'] = ood
+    if ood is not None:
+        stats['scenes_left_domain_shape_moved_over_junction'] = stats.get('scenes_left_domain_shape_moved_over_junction', 0) + 1
     for k, t in enumerate(o['tx']):
         if not t['complete']:
             continue
         edges, jmap, dangling, resolved = graphs[gi]
         ans = answers[gi]
         gi += 1
+        if ood is not None and k >= ood:
+            continue        # the client moved a terminal shape over a junction: junctions are no longer in free space (outside the property's domain)
         stats['transactions'] += 1
         stats['connectors'] += len(t['conns'])
         fp = FP_FJ if onpath else None
         if fp is None and tl and (dangling or resolved):
             fp = FP_TLIST + ':moved'        # an unattached end does not follow its shape: it dangles after the shape moved
         jin = junction_in_terminal_shape(sc, t)
+        rec_on = recommended_onto_terminal(sc, o, k)
+        if fp is None and rec_on:
+            fp = FP_FJ + ':improver_put_junction_on_terminal_shape'
         if fp is None and jin:
             fp = FP_JIN
-        extra = {'terminal_on_tree_path': onpath} if onpath else {'junction_inside_terminal_shape': jin} if jin else {}
+        extra = {'terminal_on_tree_path': onpath} if onpath else {'improver_put_junction_on_terminal_shape': rec_on} if rec_on else \
+            {'junction_inside_terminal_shape': jin} if jin else {}
         # ---- tree with the same terminals (verified checker)
         if ans[1] != '1':
             stats['tree_bad'] += 1
@@ -490,6 +587,8 @@ def judge_h2(sc, o, onpath, tl, base, stats):
     # classifier predicates evaluated on the logged trees themselves
     interior = any(p.get('kind') == 'terminal_interior' for k, sec, pr in secs for p in pr)
     for k, sec, pr in secs:
+        if o.get('out_of_domain_from') is not None and k >= o['out_of_domain_from']:
+            continue
         stats['h2_sections'] += 1
         stats['h2_' + sec.kind] += 1
         stats['h2_commands'] += len(sec.cmds)
@@ -518,9 +617,13 @@ def judge_h2(sc, o, onpath, tl, base, stats):
         first = pr[0]
         fp = None
         if first.get('kind') in H2_FJ_KINDS and all(p.get('kind') in H2_FJ_KINDS + ('smooth_after', 'conn_path') for p in pr if p not in displaced) \
-                and (not displaced or jin):
+                and (not displaced or jin or recommended_onto_terminal(sc, o, k)):
             if onpath or interior:
                 fp = FP_FJ      # the recorded classifier of the finding (geometry of the tree before improvement / MTST through a terminal)
+            elif recommended_onto_terminal(sc, o, k):
+                # the same situation (junction in / on a terminal's shape in the tree before this improvement), reached by the client
+                # following the improver's own recommendedPosition()
+                fp = FP_FJ + ':improver_put_junction_on_terminal_shape'
             elif on_end and (first.get('kind') != 'op_guard' or first.get('diverging_op', '').startswith('CONTRACT')):
                 fp = FP_FJ      # the same situation read off the logged tree: a junction sits on a connector end and is contracted with it
             elif first.get('kind') == 'op_guard' and first.get('diverging_op', '').startswith('CONTRACT') and \
@@ -570,7 +673,8 @@ def evaluate(scenes, res=None):
     results, crashed = run_scenes(allsc)
     byid = {sc.sid: (sc, o, g, a) for sc, o, g, a in results}
     stats = {k: 0 for k in ('transactions', 'connectors', 'route_ends', 'list_checks', 'tree_bad', 'tlist_unattached', 'h2_sections', 'h2_improve',
-                            'h2_reroute', 'h2_commands', 'h2_ops', 'h2_skipped', 'h2_sections_agree', 'h2_problem_sections')}
+                            'h2_reroute', 'h2_commands', 'h2_ops', 'h2_skipped', 'h2_sections_agree', 'h2_problem_sections',
+                            'recommended_moves_noop', 'recommended_moves_changed')}
     fam, all_bad, samples = {}, [], []
     stats['tree_bad_by_family'] = {}
     for sc, o, g, a in results:
@@ -634,6 +738,10 @@ def run(tier):
         scenes.append(gen_scene(rng.fork(), 'lat%d' % i, generic=False))
     for i in range(n // 4):
         scenes.append(gen_scene(rng.fork(), 'fj%d' % i, nt=rng.range(5, 6), mode=1, opt=2, generic=False))
+    # `apply recommended positions` stream: moveJunction(j, recommendedPosition()) for every junction, with / without shape moves
+    for i in range(n // 3):
+        r = rng.fork()
+        scenes.append(gen_rec_scene(r, 'rec%d' % i, mode=r.below(2), generic=True))
     all_bad, stats, fam, samples, crashed = evaluate(scenes)
     report(res, all_bad)
     unknown = [b for b in all_bad if b[1] is None or not res.known_fingerprint(b[1])]
@@ -711,7 +819,8 @@ META = {
                   '(client API, not called by the scenes) is not logged. Trusted: Coq kernel, extraction, OCaml/C++ drivers, the hook\'s print '
                   'statements, checks/c12lib.py (log parsing, node naming). Oracle calibration of the V part: live = not queued for removal; junction '
                   'ends at position() or recommendedPosition(); shape ends inside or on the shape; route orientation not required. Classified streams '
-                  '(known findings re-found every run): terminal_on_tree_path (F-j; with the hook the log shows its two mechanisms - removeZeroLengthEdges '
+                  '(known findings re-found every run; since round 3 also `apply recommended positions` histories: moveJunction(j, recommendedPosition()) for every '
+                  'live junction, no-op moves included, alone or with shape moves): terminal_on_tree_path (F-j; with the hook the log shows its two mechanisms - removeZeroLengthEdges '
                   'contracts a junction with a connector end, and with registration by terminal list the MTST passes through a terminal vertex whose '
                   'node addConns then attaches as a terminal, not as a junction), terminal_list_unattached.',
     'technique': 'Coq proof over an abstract graph model of the real operation set + hook-based op-log correspondence (replay on the extracted model) + '
